@@ -13,12 +13,119 @@ class TranslateError(Exception):
     pass
 
 
+LOG_METHODS = {"debug", "info", "warning", "warn", "error", "exception", "critical", "log"}
+_PURE_CALLS = {"len", "str", "repr", "sorted", "list", "tuple", "set", "type", "bool", "int"}
+
+
+def _pure(e: ast.AST) -> bool:
+    """syntactically effect-free argument of a logging call: constants, names, attribute chains and constant subscripts of
+    names, f-strings / % / + of such, and len/str/repr/sorted/... of such.  (An attribute may be a property; the readers
+    treat reading an attribute FOR A LOG LINE as effect-free - what the line logs is not part of any modelled behaviour,
+    and a behavioural difference would still show in the correspondence.)"""
+    if isinstance(e, (ast.Constant, ast.Name)):
+        return True
+    if isinstance(e, ast.Attribute):
+        return _pure(e.value)
+    if isinstance(e, ast.Subscript):
+        return _pure(e.value) and _pure(e.slice)
+    if isinstance(e, (ast.Tuple, ast.List)):
+        return all(_pure(x) for x in e.elts)
+    if isinstance(e, ast.JoinedStr):
+        return all(_pure(v) for v in e.values)
+    if isinstance(e, ast.FormattedValue):
+        return _pure(e.value)
+    if isinstance(e, ast.BinOp) and isinstance(e.op, (ast.Mod, ast.Add)):
+        return _pure(e.left) and _pure(e.right)
+    if isinstance(e, ast.BoolOp):
+        return all(_pure(v) for v in e.values)
+    if isinstance(e, ast.IfExp):
+        return _pure(e.test) and _pure(e.body) and _pure(e.orelse)
+    if isinstance(e, ast.Compare):
+        return _pure(e.left) and all(_pure(c) for c in e.comparators)
+    if isinstance(e, ast.Call) and isinstance(e.func, ast.Name) and e.func.id in _PURE_CALLS and not e.keywords:
+        return all(_pure(a) for a in e.args)
+    return False
+
+
+def is_log_statement(st: ast.AST) -> bool:
+    """`LOG.debug(...)`, `logger.info(...)`, `self.logger.error(...)`, `logging.warning(...)` as a statement, all arguments
+    syntactically effect-free"""
+    if not (isinstance(st, ast.Expr) and isinstance(st.value, ast.Call) and isinstance(st.value.func, ast.Attribute)):
+        return False
+    f = st.value.func
+    if f.attr not in LOG_METHODS:
+        return False
+    recv = ast.unparse(f.value)
+    if not (recv in ("LOG", "logger", "logging", "self.logger", "log", "_LOG", "_logger") or recv.endswith(".logger") or recv.endswith(".LOG")):
+        return False
+    return all(_pure(a) for a in st.value.args) and all(_pure(k.value) for k in st.value.keywords)
+
+
+class _Normalizer(ast.NodeTransformer):
+    """what a reader of behaviour does not look at: docstrings, annotations, log lines"""
+
+    def _body(self, body):
+        out = []
+        for i, st in enumerate(body):
+            if is_log_statement(st):
+                continue
+            out.append(st)
+        return out or [ast.Pass()]
+
+    def generic_visit(self, node):
+        node = super().generic_visit(node)
+        for field in ("body", "orelse", "finalbody"):
+            b = getattr(node, field, None)
+            if isinstance(b, list) and b and isinstance(b[0], ast.stmt):
+                nb = self._body(b)
+                if field != "body" and nb == [ast.Pass()] and False:
+                    nb = []
+                setattr(node, field, nb if (field == "body" or any(not isinstance(x, ast.Pass) for x in nb)) else [])
+        return node
+
+    def visit_FunctionDef(self, node):
+        node = self.generic_visit(node)
+        if node.body and isinstance(node.body[0], ast.Expr) and isinstance(node.body[0].value, ast.Constant) and isinstance(node.body[0].value.value, str):
+            node.body = node.body[1:] or [ast.Pass()]
+        node.returns = None
+        for a in node.args.args + node.args.kwonlyargs + node.args.posonlyargs + [x for x in (node.args.vararg, node.args.kwarg) if x]:
+            a.annotation = None
+        return node
+
+    visit_AsyncFunctionDef = visit_FunctionDef
+
+    def visit_ClassDef(self, node):
+        node = self.generic_visit(node)
+        if node.body and isinstance(node.body[0], ast.Expr) and isinstance(node.body[0].value, ast.Constant) and isinstance(node.body[0].value.value, str):
+            node.body = node.body[1:] or [ast.Pass()]
+        return node
+
+    def visit_AnnAssign(self, node):
+        node = self.generic_visit(node)
+        if node.value is None:
+            return None
+        return ast.copy_location(ast.Assign(targets=[node.target], value=node.value, type_comment=None), node)
+
+
+def normalize(tree: ast.AST) -> ast.AST:
+    tree = _Normalizer().visit(tree)
+    ast.fix_missing_locations(tree)
+    return tree
+
+
+def parse_src(text: str, filename: str = "<template>") -> ast.Module:
+    """parse + normalize: for the expected shapes the readers compare against"""
+    return normalize(ast.parse(text, filename=filename))
+
+
 def parse(rel: str) -> ast.Module:
+    import os
     path = REPO / rel
     try:
-        return ast.parse(path.read_text(), filename=str(path))
+        tree = ast.parse(path.read_text(), filename=str(path))
     except Exception as ex:
         raise TranslateError(f"cannot parse {rel}: {ex}")
+    return tree if os.environ.get("VERIF_T1_RAW") else normalize(tree)
 
 
 def func(mod: ast.AST, name: str) -> ast.FunctionDef:
